@@ -19,6 +19,7 @@ type Clause struct {
 	Expr  ast.Expr
 	Props []string // property ids this clause belongs to (empty = the block's props)
 	Label string
+	Bound string // `forall NAME : EXPR`: an integer variable bound over the whole clause (ensures only)
 	File  string
 	Line  int
 }
@@ -125,6 +126,7 @@ func newSpec() *Spec {
 }
 
 var propTagRe = regexp.MustCompile(`^\[([A-Za-z0-9, ]+)\]\s*`)
+var forallRe = regexp.MustCompile(`^forall\s+([A-Za-z_][A-Za-z0-9_]*)\s+:\s+`)
 var labelRe = regexp.MustCompile(`^@([A-Za-z0-9_.-]+)\s+`)
 
 func (s *Spec) mkClause(text, file string, line int) (*Clause, error) {
@@ -140,6 +142,10 @@ func (s *Spec) mkClause(text, file string, line int) (*Clause, error) {
 		text = text[len(m[0]):]
 	}
 	c.Text = text
+	if m := forallRe.FindStringSubmatch(text); m != nil {
+		c.Bound = m[1]
+		text = text[len(m[0]):]
+	}
 	rw, err := rewriteImplications(text)
 	if err != nil {
 		return nil, fmt.Errorf("%s:%d: %v", file, line, err)
